@@ -9,6 +9,7 @@ share_base, parent) is the real code.
 from .fsprops import *
 
 H = 'props.fsprops'
+MIR_KINDS = ('lib', 'bin')
 
 
 def jobs(tier):
@@ -33,6 +34,10 @@ def jobs(tier):
             js.append({'name': 'tree %s%s inputs=%s' % (mode, '->' + second if second else '', ','.join(inputs)), 'harness': (H, 'h_tree'),
                        'params': {'mode': mode, 'inputs': inputs, 'recursive': True, 'second_mode': second, 'with_bad_temp': inputs == ['.']},
                        'max_steps': 6_000_000})
+    # the mode the binary hands to the library for every combination of sub-command and flags (real main() from the bin crate's MIR)
+    for sub in (None, 'Clean', 'Verify'):
+        js.append({'name': 'cli: mode passed to the run for sub-command %s x all flags' % sub, 'harness': ('props.c17', 'h_cli'),
+                   'mir': ('lib', 'bin'), 'params': {'sub': sub, 'txtpp_file': None}})
     from . import project
     js += project.jobs('C10', tier)
     return js
@@ -41,20 +46,51 @@ def jobs(tier):
 BOUNDS = {'quick': 'all four modes x 1-2 line sources over the small menu (successful and failing) x optional single I/O fault; 5 decoy files '
                    '(a.tmp, a.txt.bak, a, ../a.txt, t.tmp.txtpp)',
           'thorough': 'all 2-line sources in all four modes'}
+from . import project as _project
+BOUNDS = {k: v + _project.bounds_note('C10', k) for k, v in BOUNDS.items()}
 ASSUMPTIONS = ['temp targets resolve inside the project (D7); the claim is "no mutating std::fs call on any other path", which implies unchanged '
                'bytes and mtimes under the OS contract', 'directory scanning / input resolution is C11']
 COVERS_REQUIRED = ['tree_Build_ok', 'tree_Clean_ok', 'paths_Build_ok', 'paths_Build_err', 'paths_Verify_err', 'paths_Clean_ok', 'paths_InMemoryBuild_ok']
 
 
+def replay_cli(v):
+    """the binary with every placement of -N: `verify` must leave a stale output alone, `clean` must create nothing"""
+    import os, shutil, subprocess, tempfile
+    from lib import build
+    d = v['data']
+    root = tempfile.mkdtemp(prefix='replay-cli10-', dir=build.scratch_dir())
+    open(os.path.join(root, 'a.txtpp'), 'w').write('x\n#TXTPP#temp n.gen\n#g\n')
+    if d['sub'] == 'Verify':
+        open(os.path.join(root, 'a'), 'w').write('stale\n')
+    before = {f: open(os.path.join(root, f), 'rb').read() for f in os.listdir(root)}
+    args = [ppreplay.cli_path()] + (['-N'] if d['needed'] else []) + ([d['sub'].lower()] if d['sub'] else []) + ['-q', 'a.txtpp']
+    e = dict(os.environ)
+    e.pop('TXTPP_FILE', None)
+    r = subprocess.run(args, cwd=root, env=e, capture_output=True)
+    after = {f: open(os.path.join(root, f), 'rb').read() for f in os.listdir(root)}
+    shutil.rmtree(root, ignore_errors=True)
+    bad = False
+    if d['sub'] == 'Verify':
+        bad = after.get('a') != before.get('a') or r.returncode == 0          # stale output: verify must fail and not touch it
+    elif d['sub'] == 'Clean':
+        bad = any(f not in before for f in after)
+    else:
+        bad = r.returncode != 0 or after.get('a') != b'x\n'
+    return bad, {'args': args[1:], 'rc': r.returncode, 'before': sorted(before), 'after': {k: repr(val) for k, val in after.items()}}
+
+
 def replay(native, v):
     d = v['data']
+    if d.get('op') == 'cli':
+        return replay_cli(v)
     if d.get('op') == 'tree':
         return replay_tree(v)
     model = d['model']
     import os, hashlib
     mode = d.get('mode', 'Build')
     root, work, bind, res = ppreplay.materialise(d, model)
-    decoys = {'a.tmp': b'decoy1', 'a.txt.bak': b'decoy2', 'a': b'decoy3', '../a.txt': b'decoy4', 't.tmp.txtpp': b'decoy5\n'}
+    decoys = {'a.tmp': b'decoy1', 'a.txt.bak': b'decoy2', 'a': b'decoy3', '../a.txt': b'decoy4', 't.tmp.txtpp': b'decoy5\n',
+              't.txtpp.md': b'decoy6\n', 't.txtpp': b'decoy7\n'}
     for k, c in decoys.items():
         open(os.path.join(work, k), 'wb').write(c)
 
@@ -81,7 +117,8 @@ def replay(native, v):
     else:
         sres, senv = ppreplay.spec_concrete(d, model, True)
         targs = [a for a, _ in sres.temps]
-    allowed = {'a.txt'} | {bytes(a).decode() for a in targs}
+    from spec import names as specnames
+    allowed = {'a.txt'} | {bytes(a).decode() for a in targs if not specnames.is_txtpp_name(ConcreteCtx(), tuple(a))}
     bad = any(k not in allowed for k in changed)
     if mode == 'Verify' and 'a.txt' in changed:
         bad = True
